@@ -287,9 +287,12 @@ def move_prev_char(text: str | bytes, start_offs: int, end_offs: int) -> int:
         raise TypeError(text)
     if _byte_encoding == "utf8":
         o = end_offs - 1
-        while text[o] & 0xC0 == 0x80:
+        while o > start_offs and end_offs - o < 4 and text[o] & 0xC0 == 0x80:
             o -= 1
-        return o
+        if decode_one(text, o)[1] == end_offs:
+            return o
+        # not a well-formed sequence: like decode_one, treat the last byte as a character of its own
+        return end_offs - 1
     if _byte_encoding == "wide" and within_double_byte(text, start_offs, end_offs - 1) == 2:
         return end_offs - 2
     return end_offs - 1
@@ -306,10 +309,8 @@ def move_next_char(text: str | bytes, start_offs: int, end_offs: int) -> int:
     if not isinstance(text, bytes):
         raise TypeError(text)
     if _byte_encoding == "utf8":
-        o = start_offs + 1
-        while o < end_offs and text[o] & 0xC0 == 0x80:
-            o += 1
-        return o
+        # same character boundaries as decode_one (an invalid byte is a character of its own)
+        return min(decode_one(text, start_offs)[1], end_offs)
     if _byte_encoding == "wide" and within_double_byte(text, start_offs, start_offs) == 1:
         return start_offs + 2
     return start_offs + 1
